@@ -1025,6 +1025,7 @@ func (g *g2l) translateFunc(key string) (u *g2lUnit) {
 			u.fuelOK = h + " Id.run do\n" + strings.Join(lines, "\n") + "\n"
 		}
 	}
+	f.ownAtTwin(u, fd, params) // go2lean_ownret.go (Own configurations): the `_at` twin of a function that returns a found cursor
 	return u
 }
 
